@@ -130,7 +130,7 @@ def run(prog, rep, tier, repo):
             key = 'recurrence:adam:%s' % tgt
             g_ = got.get(tgt)
             if g_ is None:
-                rep.viol('recurrence', key, 'no update statement for %s found (statements: %s)' % (tgt, sorted(got)), site_of(f.body))
+                rep.undecided('recurrence', key, 'no element store into %s recognised (statements: %s): update idiom not read' % (tgt, sorted(got)), site_of(f.body), proof=False)
             elif g_ == w:
                 rep.ok('recurrence', key, '%s := %s' % (tgt, g_))
                 rep.sample('Adam: %s := %s' % (tgt, g_))
@@ -143,8 +143,33 @@ def run(prog, rep, tier, repo):
         inits = [s for s in ts if tag(s.value) == 'const' and s.value[2] == 0]
         upd = [s for s in st if canon(f, s.target, fn, me, alias) == 'params[p]']
         ok = len(incs) == 1 and len(inits) == 1 and len(ts) == 2 and upd and f.cfg.dominates(incs[0].bb, upd[0].bb) and _in_outer_loop_only(f, incs[0].bb, upd[0].bb)
-        (rep.ok if ok else rep.viol)('recurrence', key, 't starts at 0 and is incremented once per iteration before the update (bias correction uses t >= 1)' if ok else
-                                     'the step counter is not 0-initialised and incremented exactly once per iteration before the update', site_of(f.body))
+        # the exponent of the bias corrections, whatever it is called: powi(beta, t as i32)
+        exps = set()
+        for s_ in f.stores():
+            for z in subterms(s_.value):
+                if tag(z) == 'call' and is_f64_method(z[1]) and f64_method_name(z[1]) == 'powi' and tag(z[2][0]) == 'field' and z[2][0][1] == me:
+                    e_ = z[2][1]
+                    while tag(e_) == 'cast':
+                        e_ = e_[2]
+                    exps.add(e_)
+        items = [e_ for e_ in exps if tag(e_) == 'item']
+        if ok:
+            rep.ok('recurrence', key, 't starts at 0 and is incremented once per iteration before the update (bias correction uses t >= 1)')
+        elif len(exps) == 1 and items:
+            rng_ = items[0][2]
+            lo_ = rng_[1] if tag(rng_) in ('range', 'rangeincl') else (rng_[2][0] if tag(rng_) == 'call' and 'RangeInclusive' in rng_[1] and rng_[2] else None)
+            if tag(lo_) == 'const' and lo_[2] >= 1:
+                rep.ok('recurrence', key, 'the bias corrections use the loop counter of `for t in %s`, which starts at %d' % (show(rng_)[:30], lo_[2]))
+            elif tag(lo_) == 'const':
+                rep.viol('recurrence', key, 'the bias corrections use a loop counter starting at %d: 1 - beta^0 = 0 divides by zero in the first step' % lo_[2], site_of(f.body))
+            else:
+                rep.undecided('recurrence', key, 'start of the step counter range not read', site_of(f.body), proof=False)
+        elif not ts and not exps:
+            rep.undecided('recurrence', key, 'no step counter found', site_of(f.body), proof=False)
+        elif ts:
+            rep.viol('recurrence', key, 'the step counter is not 0-initialised and incremented exactly once per iteration before the update', site_of(f.body))
+        else:
+            rep.undecided('recurrence', key, 'step counter idiom not read (exponents %s)' % [show(e_)[:30] for e_ in exps], site_of(f.body), proof=False)
         _early_stop(prog, rep, f, 'adam')
     # ------------------------------------------------------------------ SGD
     f = prog.func(keys['sgd'])
@@ -220,8 +245,12 @@ def run(prog, rep, tier, repo):
                         okn = okzip and _is_lookahead(g, rv, fn)
                 if isp and same and tag(pt) == 'local' and pt[2] == 'params':
                     okp = True
-        (rep.ok if okn and okp else rep.viol)('recurrence', key, 'nesterov: gradient at theta - momentum*u; plain: gradient at theta' if okn and okp else
-                                              'the gradient evaluation point does not follow the nesterov flag (look-ahead theta - momentum*u vs theta)', site_of(f.body))
+        if okn and okp:
+            rep.ok('recurrence', key, 'nesterov: gradient at theta - momentum*u; plain: gradient at theta')
+        elif len(gs) != 2 or not all(tag(s_.value) == 'call' and short(s_.value[1]) == 'wrt' for s_ in gs):
+            rep.undecided('recurrence', key, 'gradient evaluation idiom not read (expected two definitions of the gradient, one per value of the nesterov flag)', site_of(f.body), proof=False)
+        else:
+            rep.viol('recurrence', key, 'the gradient evaluation point does not follow the nesterov flag (look-ahead theta - momentum*u vs theta)', site_of(f.body))
         _early_stop(prog, rep, f, 'sgd')
     rep.floor('recurrence', 8, 'Adam (m, v, theta, t) + SGD (u, theta, order, gradient point)')
     rep.floor('early-stop', 4, 'loop condition + convergence flag for Adam and SGD')
@@ -340,7 +369,10 @@ def _early_stop(prog, rep, f, name):
         if tag(cn) != 'bin' or cn[1] not in ('Lt', 'Le'):
             return False
         a, b = cn[2], cn[3]
-        return tag(a) == 'call' and a[1] == 'statistics::order::max' and tag(b) == 'const' and isinstance(b[2], float) and 0 < b[2] < 1e-10 and mentions_rel_diff(a)
+        if not (tag(b) == 'const' and isinstance(b[2], float) and 0 < b[2] < 1e-10 and mentions_rel_diff(a)):
+            return False
+        # the compared quantity is the largest relative change: max(..) directly, or a local holding it
+        return (tag(a) == 'call' and a[1] == 'statistics::order::max') or tag(a) == 'local'
 
     def classify(cn, v):
         """'limit' / 'converged' / 'other' / None(unknown)"""
@@ -395,6 +427,12 @@ def _early_stop(prog, rep, f, name):
     unknown = [k_ for k_ in kinds if k_[0] is None]
     badflag = [k_ for k_ in kinds if k_[0] == 'flag-not-criterion']
     has_limit = any(k_[0] == 'limit' for k_ in kinds)
+    # `for t in lo..=maxsteps` / `for _ in 0..maxsteps`: the iterator's exhaustion is the step limit
+    for li in f.loop_info():
+        if li['header'] == main[0] and li['item'] is not None and tag(li['iter']) in ('range', 'rangeincl') and maxsteps in subterms(li['iter']):
+            has_limit = True
+        if li['header'] == main[0] and li['item'] is not None and tag(li['iter']) == 'call' and maxsteps in subterms(li['iter']):
+            has_limit = True
     has_conv = any(k_[0] == 'converged' for k_ in kinds)
     if others:
         rep.viol('early-stop', key, 'the optimisation loop can also be left when `%s` is %s: the returned point is then not the k-th iterate of the recurrence '
